@@ -194,12 +194,26 @@ func lookTool(n string) string {
 // gnuTarAgrees lists a tar stream (gz: gzip-compressed, possibly several concatenated gzip members) with GNU tar and
 // compares with the members the Go reader found.  "na" when tar is not installed.
 func gnuTarAgrees(stream []byte, gz bool, mem []tarMember) string {
+	if gz {
+		return gnuTarAgreesC(stream, "gzip", mem)
+	}
+	return gnuTarAgreesC(stream, "", mem)
+}
+
+// comp: "" (plain tar), "gzip" or "xz" - tar then runs the gzip / xz program itself, a foreign decompressor too
+func gnuTarAgreesC(stream []byte, comp string, mem []tarMember) string {
 	if gnuTarPath == "" {
 		return "na"
 	}
 	args := []string{"--quoting-style=literal", "--numeric-owner", "-tvf", "-"}
-	if gz {
+	switch comp {
+	case "gzip":
 		args = append([]string{"-z"}, args...)
+	case "xz":
+		if lookTool("xz") == "" {
+			return "na"
+		}
+		args = append([]string{"-J"}, args...)
 	}
 	cmd := exec.Command(gnuTarPath, args...)
 	cmd.Env = append(os.Environ(), "LC_ALL=C", "TZ=UTC")
@@ -239,6 +253,44 @@ func gnuTarAgrees(stream []byte, gz bool, mem []tarMember) string {
 		if mem[i].Type == "0" && f[2] != strconv.Itoa(len(mem[i].Data)) {
 			return fmt.Sprintf("member %d (%s): gnu tar size %s, the decoder %d", i+1, safeStr(name), f[2], len(mem[i].Data))
 		}
+	}
+	return "ok"
+}
+
+// foreignDecompressAgrees runs the gzip / xz program on a compressed stream and compares with what the Go decoder produced.
+func foreignDecompressAgrees(kind string, comp, want []byte) string {
+	var cmd *exec.Cmd
+	switch kind {
+	case "gzip":
+		if lookTool("gzip") == "" {
+			return "na"
+		}
+		cmd = exec.Command("gzip", "-dc")
+	case "xz":
+		if lookTool("xz") == "" {
+			return "na"
+		}
+		cmd = exec.Command("xz", "-dc")
+	case "lzma":
+		if lookTool("xz") == "" {
+			return "na"
+		}
+		cmd = exec.Command("xz", "--format=lzma", "-dc")
+	default:
+		return "na"
+	}
+	cmd.Stdin = bytes.NewReader(comp)
+	var so, se bytes.Buffer
+	cmd.Stdout, cmd.Stderr = &so, &se
+	if err := cmd.Run(); err != nil {
+		msg := strings.TrimSpace(se.String())
+		if len(msg) > 200 {
+			msg = msg[:200]
+		}
+		return kind + " program rejects the stream: " + safeStr(msg)
+	}
+	if !bytes.Equal(so.Bytes(), want) {
+		return fmt.Sprintf("%s program yields %d bytes, the decoder %d (or other content)", kind, so.Len(), len(want))
 	}
 	return "ok"
 }
@@ -298,7 +350,11 @@ func emitDeb(b []byte, scratch string, id int) ([]M, error) {
 			if err != nil {
 				return evs, fmt.Errorf("control tar: %w", err)
 			}
-			evs = append(evs, structEv("foreign:tar:control", gnuTarAgrees(craw, false, ctl)))
+			if cc := sniffCompression(m.Data); cc == "gzip" || cc == "xz" {
+				evs = append(evs, structEv("foreign:tar:control", gnuTarAgreesC(m.Data, cc, ctl)))
+			} else {
+				evs = append(evs, structEv("foreign:tar:control", gnuTarAgrees(craw, false, ctl)))
+			}
 			ce, err := controlTarEvents(ctl, true)
 			evs = append(evs, ce...)
 			if err != nil {
@@ -320,7 +376,11 @@ func emitDeb(b []byte, scratch string, id int) ([]M, error) {
 			if err != nil {
 				return evs, fmt.Errorf("data tar: %w", err)
 			}
-			evs = append(evs, structEv("foreign:tar:data", gnuTarAgrees(raw, false, dm)))
+			if kind == "gzip" || kind == "xz" {
+				evs = append(evs, structEv("foreign:tar:data", gnuTarAgreesC(m.Data, kind, dm)))
+			} else {
+				evs = append(evs, structEv("foreign:tar:data", gnuTarAgrees(raw, false, dm)))
+			}
 			for i, t := range dm {
 				evs = append(evs, tarEv("data", i+1, t))
 				if t.Type == "0" && strings.HasSuffix(t.Name, "/changelog.Debian.gz") {
@@ -594,7 +654,8 @@ func emitRpm(b []byte) ([]M, error) {
 		structEv("hdr_sha256", hd.SHA256), structEv("hdr_sha1", hd.SHA1), structEv("payload_sha256", pd.SHA256),
 		structEv("payload_len", len(p.Payload)), structEv("payload_rawlen", len(p.PayloadRaw)),
 		structEv("hdr_plus_payload_len", len(p.HeaderAndPay)), structEv("hdr_plus_payload_md5", digestsOf(p.HeaderAndPay).MD5),
-		structEv("comp:payload", p.Compression), structEv("total_len", len(b)))
+		structEv("comp:payload", p.Compression), structEv("total_len", len(b)),
+		structEv("foreign:decompress:payload", foreignDecompressAgrees(p.Compression, p.Payload, p.PayloadRaw)))
 	evs = append(evs, rpmTagEvents("sig", p.Sig)...)
 	evs = append(evs, rpmTagEvents("hdr", p.Hdr)...)
 	for tag, name := range rpmSlotTags {
